@@ -80,12 +80,8 @@ pub fn check_text(text: &str, expect_tree: Option<&Iface>, stats: &mut Stats) ->
         let from_tree = tokens_of(&iface_of(p));
         // carve-out: a carriage return without a line feed may end a comment line (zlink's reading)
         // or belong to the comment; the tokens are compared under whichever reading fits
-        let lone_cr_reading = || {
-            let b = text.as_bytes();
-            let alt: String = text.char_indices().map(|(i, c)| if c == '\r' && b.get(i + 1) != Some(&b'\n') { '\n' } else { c }).collect();
-            grouped_tokens(alt.trim())
-        };
-        if from_text != from_tree && (!text.contains('\r') || lone_cr_reading() != from_tree) {
+        let some_reading_fits = || vcommon::idl::lone_cr_readings(text).iter().skip(1).any(|alt| grouped_tokens(alt.trim()) == from_tree);
+        if from_text != from_tree && !some_reading_fits() {
             let k = from_text.iter().zip(&from_tree).position(|(a, b)| a != b).unwrap_or(from_text.len().min(from_tree.len()));
             return Err(Fail::new(
                 "accepted-while-ignoring-part-of-the-text",
